@@ -9,12 +9,27 @@ block hooks for it, and cannot cancel it or cause messages to be sent on its beh
 
 Model: `GS.ReqMgr` (GS/Model/ReqMgr.lean).  `processResponses q rs` is the fold of the stage list
 `GS.Generated.ReqPipeline.stages`, which translate/reqpipeline regenerates from
-requestmanager/server.go on every check; the theorems below are proved for *every* stage list that
-satisfies `Guarded` and then instantiated with the generated one (`pipeline_guarded`, by `decide`).
-The filter itself is not hand-written either: `stageOne .filterForPeer` evaluates the comparison term
-`ReqPipeline.filterCond` extracted from `filterResponsesForPeer` (`filter_compares_peer`, by `decide`).
-Re-ordering the stages in the Go source so that the hooks (or anything else) run before the peer
-filter makes `pipeline_guarded` false and this file stops compiling.
+requestmanager/server.go on every check; the two filtering stages evaluate the comparison terms
+`ReqPipeline.dropCond` / `ReqPipeline.filterCond` extracted from the source.  The theorems are
+proved for *every* stage list that satisfies `Guarded` and instantiated with the generated one
+(`pipeline_guarded`, `drop_compares_peer`, `filter_compares_peer`, all by `decide`).
+
+## Full statement, and what is proved
+
+FULL (not provable, see `ended_request_counterexample`): *for every request r that was ever sent
+to p — in progress or already ended — a message from q ≠ p carrying r's ID produces no hook call
+and no outgoing message for r.*
+
+Since e8dd457 (follow-up of 33dbc69) the first stage of `processResponses` drops exactly the
+responses whose request is IN PROGRESS with another peer; a response whose request is not (or no
+longer) in the table passes on to the response hooks, whoever sent it, as in the original code
+(existing users wait for the hook to see the final response of a request that has already
+completed locally; once the entry is gone the manager does not know whom the request belonged to).
+
+PROVED (`_partial`: the request is in progress = has a table entry): `noninterference_partial`,
+`noninterference_run_partial`.  For an ended request only the hook call and the update a hook may
+send back to the sender remain (`ended_request_counterexample`; a hook error has no effect because
+there is no entry left): known finding `hook-after-request-ended`.
 
 What "the request" consists of in the model: its table entry (peer, state, terminal error, context
 cancelled, last response as seen by block hooks, loader online flag and loader queue `ingested`,
@@ -25,29 +40,37 @@ task-queue operations).
 namespace GS.C09
 open GS.ReqMgr GS.Generated
 
-/-- Every effectful stage of the response pipeline runs after the peer filter.  The translator
-    guarantees linear data flow (each stage consumes what the previous one kept) and every stage
-    other than the filter is effectful, so this is: the first stage is the peer filter. -/
+/-- Every effectful stage of the response pipeline runs after a stage that removes the responses
+    addressed to requests in progress with another peer.  The translator guarantees linear data flow
+    (each stage consumes what the previous one kept), so this is: the first stage is the
+    drop-foreign stage or the full peer filter. -/
 def Guarded : List StageOp → Bool
   | [] => true
-  | op :: _ => op == .filterForPeer
+  | op :: _ => op == .dropForeignLive || op == .filterForPeer
 
-/-- A response is *foreign* for a message from `q` if its request is in the table for another peer
-    (the situation of the property) or not in the table at all. -/
-def Foreign (t : Table) (q : Peer) (x : Resp) : Prop := keeps t q x = false
+/-- A response is *foreign* for a message from `q` if its request is in progress with another peer:
+    the situation of the property for a live request. -/
+def ForeignLive (t : Table) (q : Peer) (x : Resp) : Prop := ∃ e, t.get x.id = some e ∧ e.peer ≠ q
 
-instance (t : Table) (q : Peer) (x : Resp) : Decidable (Foreign t q x) := by
-  unfold Foreign; infer_instance
+instance (t : Table) (q : Peer) (x : Resp) : Decidable (ForeignLive t q x) := by
+  unfold ForeignLive
+  cases h : t.get x.id with
+  | none => exact isFalse (by simp)
+  | some e =>
+    by_cases hp : e.peer = q
+    · exact isFalse (by simp [hp])
+    · exact isTrue ⟨e, rfl, hp⟩
 
-/-- the pipeline extracted from today's `processResponses` is guarded
-    (this is the statement that depends on the Go source) -/
+/-- the pipeline extracted from today's `processResponses` is guarded (depends on the Go source) -/
 theorem pipeline_guarded : Guarded ReqPipeline.stages = true := by decide
 
-/-- the comparison inside the peer filter, as extracted from the source, is "entry's peer ≠ sender"
-    (this too depends on the Go source: comparing anything else changes the generated term) -/
+/-- the comparison inside the full peer filter, as extracted from the source, is "entry's peer ≠ sender" -/
 theorem filter_compares_peer : GoodFilter ReqPipeline.filterCond = true := by decide
 
-/-- what the filter keeps was sent to the sender -/
+/-- the comparison inside the drop-foreign stage, as extracted from the source, is "entry's peer ≠ sender" -/
+theorem drop_compares_peer : GoodFilter ReqPipeline.dropCond = true := by decide
+
+/-- what the full filter keeps was sent to the sender -/
 theorem keeps_peer (t : Table) (q : Peer) (x : Resp) (h : keeps t q x = true) :
     ∃ e, t.get x.id = some e ∧ e.peer = q := by
   unfold keeps at h
@@ -57,11 +80,26 @@ theorem keeps_peer (t : Table) (q : Peer) (x : Resp) (h : keeps t q x = true) :
     exact ⟨e, he, by simpa using h⟩
   · cases h
 
+/-- what the drop-foreign stage lets pass is not in progress with another peer -/
+theorem passes_peer (t : Table) (q : Peer) (x : Resp) (e : Entry) (h : passes t q x = true)
+    (he : t.get x.id = some e) : e.peer = q := by
+  unfold passes at h
+  rw [he] at h
+  simp only [filterKeeps_good _ drop_compares_peer] at h
+  simpa using h
+
+theorem foreignLive_dropped (t : Table) (q : Peer) (x : Resp) (h : ForeignLive t q x) :
+    passes t q x = false ∧ keeps t q x = false := by
+  obtain ⟨e, he, hp⟩ := h
+  constructor
+  · unfold passes; rw [he]; simp only [filterKeeps_good _ drop_compares_peer]; simpa using hp
+  · unfold keeps; rw [he]; simp only [filterKeeps_good _ filter_compares_peer]; simpa using hp
+
 /-! ## single step -/
 
 /-- General form of the step theorem: with a guarded pipeline, a message from `q` — whatever
     responses (any status, metadata, extensions, blocks, hook outcomes) it carries — leaves the entry
-    of every request that was sent to another peer exactly as it was, and produces no event that
+    of every request in progress with another peer exactly as it was, and produces no event that
     names that request. -/
 theorem noninterference_of_guarded (stages : List StageOp) (hg : Guarded stages = true)
     (t : Table) (r : ReqId) (st : Entry) (q : Peer) (rs : List Resp)
@@ -70,28 +108,34 @@ theorem noninterference_of_guarded (stages : List StageOp) (hg : Guarded stages 
   cases stages with
   | nil => simp [runStages, hr]
   | cons op rest =>
-    have hop : op = .filterForPeer := by simpa [Guarded] using hg
-    subst hop
-    simp only [runStages, runStage_filter]
-    have hkept : ∀ x ∈ rs.filter (keeps t q), x.id ≠ r := by
+    have hop : op = .dropForeignLive ∨ op = .filterForPeer := by
+      simpa [Guarded] using hg
+    -- in both cases the first stage leaves the table alone and keeps no response for r
+    have key : ∀ (kept : List Resp), (∀ x ∈ kept, x.id ≠ r) →
+        (runStages rest q t kept).1.get r = some st ∧ ∀ ev ∈ (runStages rest q t kept).2, ev.req ≠ r := by
+      intro kept hk
+      obtain ⟨f1, f2⟩ := runStages_frame rest q r t kept hk
+      exact ⟨by rw [f1, hr], f2⟩
+    rcases hop with h | h <;> subst h
+    · simp only [runStages, runStage_drop, List.nil_append]
+      apply key
       intro x hx hid
-      have hk : keeps t q x = true := (List.mem_filter.mp hx).2
-      obtain ⟨e, he, hpe⟩ := keeps_peer t q x hk
+      have hk : passes t q x = true := (List.mem_filter.mp hx).2
+      exact hq (passes_peer t q x st hk (by rw [hid, hr])).symm
+    · simp only [runStages, runStage_filter, List.nil_append]
+      apply key
+      intro x hx hid
+      obtain ⟨e, he, hpe⟩ := keeps_peer t q x (List.mem_filter.mp hx).2
       rw [hid, hr] at he
       cases he
       exact hq hpe.symm
-    obtain ⟨f1, f2⟩ := runStages_frame rest q r t (rs.filter (keeps t q)) hkept
-    refine ⟨by rw [f1, hr], ?_⟩
-    intro ev hev
-    simp only [List.nil_append] at hev
-    exact f2 ev hev
 
-/-- **C09, one step.**  For every state `s`, request `r` with table entry `st`, peer `q ≠ st.peer`
-    and ANY responses `rs`: handling `processResponses q rs` leaves `r`'s table entry (status,
-    loader queue, channel-related fields, …) unchanged, leaves the task queue unchanged, and emits no
-    hook event, no outgoing message, no channel event and no other event that mentions `r`.
-    (No reachability hypothesis is needed: it holds in every state.) -/
-theorem noninterference (s : State) (r : ReqId) (st : Entry) (q : Peer) (rs : List Resp)
+/-- **C09, one step (`_partial`: the request is in progress).**  For every state `s`, request `r`
+    with table entry `st`, peer `q ≠ st.peer` and ANY responses `rs`: handling
+    `processResponses q rs` leaves `r`'s table entry (status, loader queue, channel-related fields,
+    …) unchanged, leaves the task queue unchanged, and emits no hook event, no outgoing message, no
+    channel event and no other event that mentions `r`.  (No reachability hypothesis is needed.) -/
+theorem noninterference_partial (s : State) (r : ReqId) (st : Entry) (q : Peer) (rs : List Resp)
     (hr : s.table.get r = some st) (hq : q ≠ st.peer) :
     (step s (.resp q rs)).1.table.get r = some st
     ∧ (step s (.resp q rs)).1.pending = s.pending
@@ -102,45 +146,52 @@ theorem noninterference (s : State) (r : ReqId) (st : Entry) (q : Peer) (rs : Li
 
 /-! ## whole histories -/
 
-/-- With a guarded pipeline a foreign response can be deleted from a message without changing
-    anything: the resulting table and the complete event list are identical. -/
+/-- With a guarded pipeline a response for a request in progress with another peer can be deleted
+    from a message without changing anything: the resulting table and the complete event list are
+    identical. -/
 theorem erase_foreign_of_guarded (stages : List StageOp) (hg : Guarded stages = true)
-    (t : Table) (q : Peer) (pre post : List Resp) (x : Resp) (hx : Foreign t q x) :
+    (t : Table) (q : Peer) (pre post : List Resp) (x : Resp) (hx : ForeignLive t q x) :
     runStages stages q t (pre ++ x :: post) = runStages stages q t (pre ++ post) := by
+  obtain ⟨hpass, hkeep⟩ := foreignLive_dropped t q x hx
   cases stages with
   | nil => simp [runStages]
   | cons op rest =>
-    have hop : op = .filterForPeer := by simpa [Guarded] using hg
-    subst hop
-    simp only [runStages, runStage_filter]
-    have : (pre ++ x :: post).filter (keeps t q) = (pre ++ post).filter (keeps t q) := by
-      simp [List.filter_append, show keeps t q x = false from hx]
-    rw [this]
+    have hop : op = .dropForeignLive ∨ op = .filterForPeer := by
+      simpa [Guarded] using hg
+    rcases hop with h | h <;> subst h
+    · simp only [runStages, runStage_drop]
+      have : (pre ++ x :: post).filter (passes t q) = (pre ++ post).filter (passes t q) := by
+        simp [List.filter_append, hpass]
+      rw [this]
+    · simp only [runStages, runStage_filter]
+      have : (pre ++ x :: post).filter (keeps t q) = (pre ++ post).filter (keeps t q) := by
+        simp [List.filter_append, hkeep]
+      rw [this]
 
 theorem step_erase_foreign (s : State) (q : Peer) (pre post : List Resp) (x : Resp)
-    (hx : Foreign s.table q x) :
+    (hx : ForeignLive s.table q x) :
     step s (.resp q (pre ++ x :: post)) = step s (.resp q (pre ++ post)) := by
   simp only [step, processResponses]
   rw [erase_foreign_of_guarded ReqPipeline.stages pipeline_guarded s.table q pre post x hx]
 
 /-- `ErasedFrom s h h'`: history `h'` is history `h` run from state `s` with some foreign responses
-    deleted — each one foreign in the state in which its message is handled.  Any number of
-    deletions, anywhere, interleaved with arbitrary other operations (the genuine exchange, local
-    API calls, executor steps). -/
+    deleted — each one addressed to a request that is in progress with another peer in the state in
+    which its message is handled.  Any number of deletions, anywhere, interleaved with arbitrary
+    other operations (the genuine exchange, local API calls, executor steps). -/
 inductive ErasedFrom : State → List Op → List Op → Prop
   | nil (s : State) : ErasedFrom s [] []
   | keep (s : State) (op : Op) (ops ops' : List Op) :
       ErasedFrom (step s op).1 ops ops' → ErasedFrom s (op :: ops) (op :: ops')
   | erase (s : State) (q : Peer) (pre post : List Resp) (x : Resp) (ops ops' : List Op) :
-      Foreign s.table q x →
+      ForeignLive s.table q x →
       ErasedFrom s (Op.resp q (pre ++ post) :: ops) ops' →
       ErasedFrom s (Op.resp q (pre ++ x :: post) :: ops) ops'
 
-/-- **C09 over histories.**  Running any history gives exactly the same final state and the same
-    outputs at every step as running it with the foreign responses deleted: responses from other
-    peers carrying a request's ID are no-ops, however they are interleaved with the genuine exchange.
-    By induction on the history. -/
-theorem noninterference_run (s : State) (h h' : List Op) (he : ErasedFrom s h h') :
+/-- **C09 over histories (`_partial`: the requests are in progress).**  Running any history gives
+    exactly the same final state and the same outputs at every step as running it with the foreign
+    responses deleted: responses from other peers carrying the ID of a live request are no-ops,
+    however they are interleaved with the genuine exchange.  By induction on the history. -/
+theorem noninterference_run_partial (s : State) (h h' : List Op) (he : ErasedFrom s h h') :
     run s h = run s h' := by
   induction he with
   | nil s => rfl
@@ -148,6 +199,21 @@ theorem noninterference_run (s : State) (h h' : List Op) (he : ErasedFrom s h h'
   | erase s q pre post x ops ops' hx _ ih =>
     rw [← ih]
     simp only [run, step_erase_foreign s q pre post x hx]
+
+/-! ## the excluded region: a request that has already ended -/
+
+/-- request 1 was sent to peer 0, ran and has completed: its entry is gone -/
+def sEnded : State := (run {} [.newRequest 1 0, .start 1, .release 1 .ok]).1
+
+/-- **counterexample for the full statement** (known finding `hook-after-request-ended`): a
+    response from peer 2 carrying the ID of the ended request 1 reaches the response hook, and the
+    update the hook asks for is sent to peer 2.  Nothing else happens (the hook's error has no
+    effect: there is no entry to cancel). -/
+theorem ended_request_counterexample :
+    sEnded.table.get 1 = none
+    ∧ (step sEnded (.resp 2 [{ id := 1, status := 14, hookExt := true, hookErr := true }])).2.1
+        = [Ev.hook 2 1 14, Ev.out 2 .update 1] := by
+  decide
 
 /-! ## the pre-fix order is refuted (why `Guarded` is needed) -/
 
@@ -174,14 +240,14 @@ theorem unguarded_counterexample :
     ∧ Ev.closed 1 ∈ (runStages stagesBeforeFix 2 tableEx [evilResp]).2 := by
   decide
 
-/-- the same input on today's pipeline: nothing happens (non-vacuity of `noninterference`:
+/-- the same input on today's pipeline: nothing happens (non-vacuity of `noninterference_partial`:
     its hypotheses are met by `tableEx`, request 1, peer 2) -/
 example : processResponses 2 [evilResp] tableEx = (tableEx, []) := by decide
 
 example : ∃ st, tableEx.get 1 = some st ∧ (2 : Peer) ≠ st.peer := ⟨{ peer := 0 }, by decide, by decide⟩
 
-/-- non-vacuity of `noninterference_run`: a history in which a third-peer response (with a failing
-    hook) arrives between the genuine responses of a running request -/
+/-- non-vacuity of `noninterference_run_partial`: a history in which a third-peer response (with a
+    failing hook) arrives between the genuine responses of a running request -/
 example : ErasedFrom {}
     [.newRequest 1 0, .start 1, .resp 2 ([] ++ evilResp :: []), .resp 0 [{ id := 1, status := 20, count := 1 }], .release 1 .ok]
     [.newRequest 1 0, .start 1, .resp 2 ([] ++ []), .resp 0 [{ id := 1, status := 20, count := 1 }], .release 1 .ok] := by
